@@ -1,8 +1,21 @@
-(** GENERATED on every run by tools/goextract (structure.go) from /repo/sack/sack_driver.go.  Do not edit. *)
-From Coq Require Import ZArith.
+(** GENERATED on every run by tools/goextract (structure.go) from /repo/sack/sack_driver.go, result/result.go and
+    traceroute/traceroute.go.  Do not edit. *)
+From Coq Require Import ZArith List.
+From TR Require Import Lib.Shapes.
+Import ListNotations.
 Open Scope Z_scope.
 
 (** ReadHandshake: read deadlines armed before the read loop, whether the loop (or anything it calls) re-arms one, and the timeout *)
 Definition sack_handshake_deadlines_before_loop : Z := 1.
 Definition sack_handshake_deadline_in_loop : bool := false.
 Definition sack_handshake_timeout_ns : Z := 500000000.
+
+(** RemovePrivateHops: both loops visit every run and every hop and the body is the single conditional replacement;
+    the condition is hop.IPAddress.IsPrivate(); the replacement keeps exactly the TTL *)
+Definition redact_visits_every_hop : bool := true.
+Definition redact_condition_is_private_address : bool := true.
+Definition redact_keeps_only_ttl : bool := true.
+
+(** RunTraceroute: a failed multi-query run returns (nil, err); then, in this order, the post-processing steps with their guards *)
+Definition run_error_returns_no_result : bool := true.
+Definition run_pipeline_order : list (pguard * pstep) := [(G_ReverseDns, PS_Enrich); (G_None, PS_Normalize); (G_SkipPrivate, PS_Redact)].
